@@ -528,6 +528,10 @@ func TestVerifC14(t *testing.T) {
 			t.Fail()
 		}
 	}()
+	if rp := os.Getenv("VERIF_REPLAY"); rp != "" {
+		replayHistory(t, rep, rp)
+		return
+	}
 	thorough := verifkit.Thorough()
 	maxDepth := 4
 	if thorough {
@@ -692,6 +696,35 @@ func TestVerifC14(t *testing.T) {
 }
 
 var traces int
+
+// replayHistory re-executes ONE recorded history (check C14 <tier> --replay <file>) on fresh real services and
+// evaluates the oracles on its last call, without the search.
+func replayHistory(t *testing.T, rep *verifkit.Report, path string) {
+	b, err := os.ReadFile(path)
+	if err != nil {
+		t.Fatalf("replay: %v", err)
+	}
+	var doc struct {
+		Replay struct {
+			History []op `json:"history"`
+		} `json:"replay"`
+	}
+	if err := json.Unmarshal(b, &doc); err != nil || len(doc.Replay.History) == 0 {
+		t.Fatalf("replay: no history in %s (%v)", path, err)
+	}
+	hist := doc.Replay.History
+	s, err := build(hist[:len(hist)-1])
+	if err != nil {
+		t.Fatalf("replay: the history prefix cannot be rebuilt: %v", err)
+	}
+	o := hist[len(hist)-1]
+	before, prot, keys := s.dumpMemory(true), s.protectedDump(), s.storeKeys()
+	aerr, _, pan := s.apply(o)
+	rep.Eval()
+	rep.Transitions(int64(len(hist)))
+	clean := checkState(rep, s, hist, o, aerr, pan, before, keys, prot)
+	fmt.Printf("replay of %s\n  last call returned: %v\n  oracles clean: %v\n--- state before the last call\n%s\n--- state after\n%s\n", histString(hist), aerr, clean, before, s.dumpMemory(true))
+}
 
 // checkState evaluates the oracles on one transition; it returns false when the transition violated one (the state
 // it leads to is then not used as a start state: every successor would only repeat the same finding).
